@@ -884,32 +884,36 @@ def deepen(m, nlevels, seed=0):
     return m
 
 
-def refine_top(m, seed=0):
-    """The finest level of a model with >= 2 levels on an index space twice as fine: its refinement ratio
-    becomes 4 (Header ratio line `2 4` for three levels, as AMReX writes with amr.ref_ratio = 2 4). Boxes keep
-    their physical extent, every new cell gets its own value. Only `uncovered_mask` and `write_plotfile` know
-    `m.ratios`: the other reference operations of this module assume the ratio 2 (section 9 of DESIGN.md)."""
+def refine_top(m, seed=0, from_level=None):
+    """Level `from_level` (default: the finest) and every finer level of a model with >= 2 levels on an index
+    space twice as fine: the refinement ratio below `from_level` becomes 4 (Header ratio line `2 4` or `4 2` for
+    three levels, as AMReX writes with amr.ref_ratio = 2 4 / 4 2). Boxes keep their physical extent, every new
+    cell gets its own value. Only `uncovered_mask` and `write_plotfile` know `m.ratios`: the other reference
+    operations of this module assume the ratio 2 (section 9 of DESIGN.md)."""
     assert m.nlevels >= 2
     nprng = np.random.default_rng(seed + 4242)
-    L = m.nlevels - 1
-    m.ratios = [2] * (L - 1) + [4]
+    k = m.nlevels - 1 if from_level is None else int(from_level)
+    assert 1 <= k <= m.nlevels - 1
+    m.ratios = [2] * (m.nlevels - 1)
+    m.ratios[k - 1] = 4
     m.dx = [list(v) for v in m.dx]
-    m.dx[L] = [v / 2 for v in m.dx[L]]
     m.grid_sizes = [list(g) for g in m.grid_sizes]
-    m.grid_sizes[L] = [2 * g for g in m.grid_sizes[L]]
     m.boxes = list(m.boxes)
-    m.boxes[L] = [Box([2 * v for v in b.lo], [2 * v + 1 for v in b.hi]) for b in m.boxes[L]]
     m.data = list(m.data)
-    new = []
-    for a in m.data[L]:
-        for d in range(m.ndims):
-            a = np.repeat(a, 2, axis=d)
-        a = np.array(a, dtype=np.float64, order="F", copy=True)
-        fin = np.isfinite(a)
-        amp = float(np.max(np.abs(a[fin]))) if fin.any() else 1.0
-        a[fin] += (0.05 * (amp or 1.0)) * nprng.standard_normal(int(fin.sum()))
-        new.append(a)
-    m.data[L] = new
+    for L in range(k, m.nlevels):
+        m.dx[L] = [v / 2 for v in m.dx[L]]
+        m.grid_sizes[L] = [2 * g for g in m.grid_sizes[L]]
+        m.boxes[L] = [Box([2 * v for v in b.lo], [2 * v + 1 for v in b.hi]) for b in m.boxes[L]]
+        new = []
+        for a in m.data[L]:
+            for d in range(m.ndims):
+                a = np.repeat(a, 2, axis=d)
+            a = np.array(a, dtype=np.float64, order="F", copy=True)
+            fin = np.isfinite(a)
+            amp = float(np.max(np.abs(a[fin]))) if fin.any() else 1.0
+            a[fin] += (0.05 * (amp or 1.0)) * nprng.standard_normal(int(fin.sum()))
+            new.append(a)
+        m.data[L] = new
     return m
 
 
